@@ -197,7 +197,8 @@ def _run(plan, root):
     binf = root / f"{stem}.ap.bin"
     metaf = root / f"{stem}.ap.meta"
     size_fields = "none" if plan["meta"] == "none" else plan.get("meta_fields", "complete")
-    metaf.write_text(world.make_meta_text(plan["fixture"], nap, plan["claimed"], size_fields=size_fields))
+    metaf.write_text(world.make_meta_text(plan["fixture"], nap, plan["claimed"], size_fields=size_fields,
+                                          time_decimals=(4 if plan["seed"] % 5 == 2 else None)))     # the duration with four decimals, as the acquisition software writes it
     log = []
     stats = {"faults": {}, "probes": {}, "outcomes": {}, "distinct": [], "steps": 0, "sim_time": 0.0}
 
